@@ -11,9 +11,17 @@
 
 extern crate arc_swap;
 
+#[cfg(not(vm_memory_verif))]
 use arc_swap::{ArcSwap, Guard};
 use std::ops::Deref;
+#[cfg(not(vm_memory_verif))]
 use std::sync::{Arc, LockResult, Mutex, MutexGuard, PoisonError};
+#[cfg(vm_memory_verif)]
+use crate::verif::{ArcSwap, Mutex, MutexGuard};
+#[cfg(vm_memory_verif)]
+use arc_swap::Guard;
+#[cfg(vm_memory_verif)]
+use std::sync::{Arc, LockResult, PoisonError};
 
 use crate::{GuestAddressSpace, GuestMemory};
 
